@@ -459,3 +459,53 @@ pub fn tf_mutate(r: &mut Rng, a: (f64, f64), emin: i64, emax: i64) -> (f64, f64)
     }
     a
 }
+
+
+/// Integers whose exact value is the first not representable in f64 around 2^53 / 2^54 (odd
+/// neighbours of a power of two): N = 2^k + d. Returned as u128.
+pub fn boundary_int(r: &mut Rng) -> u128 {
+    let k = pk!(r, [53u32, 53, 53, 54, 55, 106, 64]);
+    let d = pk!(r, [1i128, -1, 3, 1, 1, 5, -3]);
+    ((1i128 << k) + d) as u128
+}
+
+/// A divisor pair (p, q) with p * q == n exactly, p <= 2^26 found by trial division (None if n has
+/// no small factor). Used to build products that equal a boundary integer exactly.
+pub fn small_factor(r: &mut Rng, n: u128) -> Option<(u128, u128)> {
+    let start = 2 + r.below(200) as u128;
+    let mut fs: Vec<u128> = Vec::new();
+    let mut d = start;
+    while d < start + 400_000 && fs.len() < 4 {
+        if n % d == 0 {
+            fs.push(d);
+        }
+        d += 1;
+    }
+    let mut d = 2u128;
+    while d < 2000 {
+        if n % d == 0 {
+            fs.push(d);
+        }
+        d += 1;
+    }
+    if fs.is_empty() {
+        None
+    } else {
+        let p = fs[r.below(fs.len() as u64) as usize];
+        Some((p, n / p))
+    }
+}
+
+/// f64 with a short significand (nbits significant bits) and exponent e.
+pub fn short_sig(r: &mut Rng, nbits: u32, e: i64) -> f64 {
+    let nb = nbits.clamp(1, 53);
+    let m = (r.next() >> (64 - nb)) | (1u64 << (nb - 1)) | if r.coin() { 1 } else { 0 };
+    // all-ones significands are where exact-sum/product fast paths go wrong
+    let m = if r.chance(1, 3) { (1u64 << nb) - 1 } else { m };
+    let v = (m as f64) * pow2((e - (nb as i64 - 1)).clamp(-1074, 1023));
+    if r.coin() {
+        v
+    } else {
+        -v
+    }
+}
